@@ -109,6 +109,29 @@ def or_state_ctor(tu, lw):
 
 OR_ROOTS = ['op_or::next', or_state_ctor]
 
+SPS_ = r'(const )?std::(shared_ptr<(stringer|stringer_origin)>|__shared_ptr<(stringer|stringer_origin).*>|__shared_ptr_access<(stringer|stringer_origin).*>)'
+STRP = r'(const )?std::pair<' + UPS + r', std::(__cxx11::)?basic_string<char.*>>'
+FMT_CFG = {
+    'names': {'op_format::next': 'op_format_next', '_ZN9op_format5stateC1Ev': 'op_format_state_ctor'},
+    'types': {SPO: 'op *', SPS_: 'mstringer *', UPS: 'sid', STRP: 'strpair', r'(const )?std::(__cxx11::)?basic_string<char.*>': 'int',
+              r'(const )?std::unique_ptr<(value_str|(zw_)?value)(, std::default_delete<(value_str|(zw_)?value)>)?>': 'int', r'stack': 'sid', r'std::nullptr_t': 'void *',
+              r'scon': 'mscon', r'layout::loc': 'unsigned long'},
+    'types_are_records': {STRP: True, r'scon': True},
+    'record_ctypes': ['strpair', 'mscon', 'mstringer'],
+    'types_prelude': '#include "fmt_model.h"\ntypedef struct op op;\n',
+    'bodies_prelude': '#include "fmt_model2.h"\n',
+    'virtual': {'op::next': 'op_next_model', 'stringer::next': 'stringer_next_model'},
+    'move_nulls': {UPS: 'SID_TAKE'},
+    'extern': {r'std::__shared_ptr_access<.*>::operator(->|\*)': {'c': 'PTR_ID', 'by_value': True},
+               UPS + r'::operator(->|\*)': {'c': 'PTR_ID', 'by_value': True},
+               UPS + r'::operator bool': {'c': 'PTR_BOOL', 'by_value': True},
+               r'std::operator==\|.*nullptr_t\).*': 'UPTR_IS_NULL', r'std::operator!=\|.*nullptr_t\).*': 'UPTR_NOT_NULL',
+               r'std::make_unique\|.*value_str.*': 'mk_value_str', r'std::move': 'VERIF_MOVE',
+               r'scon::get': 'scon_get_fmt_state', r'scon::reset': 'scon_reset_fmt_state', r'stringer_origin::set_next': 'stringer_origin_set_next',
+               r'stack::push': 'stack_push_model'},
+}
+FMT_ROOTS = ['op_format::next', '_ZN9op_format5stateC1Ev']
+
 
 def jobs(tier):
     inc = [OUT, os.path.join(vlib.VERIF, 'props'), HERE]
@@ -120,6 +143,11 @@ def jobs(tier):
              inputs=['g_nfeed'], note='ALT with 2 branches, 0..2 results per branch and input; 1 input, exhaustion, 1 more input fed, exhaustion'),
          Job('bounded_or', osrc, 'hb_or', includes=inc, kind='bounded', unwind=17, timeout=1200, cbmc_args=OUW, inputs=['g_nfeed'],
              note='|| with 2 branches, 0..2 results per branch and input; 1-2 inputs, exhaustion, 1 more input fed, exhaustion'),
+         Job('bounded_format', [os.path.join(HERE, 'fmt_harness.c'), os.path.join(OUT, 'fmt_bodies.c')], 'hb_format', includes=inc, kind='bounded',
+             unwind=9, timeout=600, cbmc_args=['--object-bits', '10', '--unwindset', 'op_format_next.0:5,drive.0:7'], inputs=['g_nfeed'],
+             note='op_format::next: directive chain yields 0..2 strings per input; 1-2 inputs, exhaustion, 1 more input'),
+         Job('format_control', [os.path.join(HERE, 'fmt_harness.c'), os.path.join(OUT, 'fmt_bodies.c')], 'hb_format_control', includes=inc,
+             defines=['VERIF_CONTROL'], kind='control', expect='fail', unwind=9, timeout=300, cbmc_args=['--object-bits', '10', '--unwindset', 'op_format_next.0:5,drive.0:7']),
          Job('alt_control', asrc, 'hb_alt_control', includes=inc, defines=['VERIF_CONTROL'], kind='control', expect='fail', unwind=17, timeout=600, cbmc_args=AUW),
          Job('or_control', osrc, 'hb_or_control', includes=inc, defines=['VERIF_CONTROL'], kind='control', expect='fail', unwind=17, timeout=600, cbmc_args=OUW)]
     if tier == 'thorough':
@@ -137,13 +165,14 @@ ASSUMPTIONS = [
     'stacks are handles naming their contents, copying is the identity, moving a unique_ptr out of an lvalue nulls it (props/c01/alt_model.h); std::vector, std::all_of, scon::get/reset are modelled; the lambda given to std::all_of is lowered and called by the model',
     'each branch is an abstract well-behaved operator chain (props/c01/alt_model2.h): per input it yields 0..2 stacks and then pulls its source (the REAL op_tine::next for ALT, its origin for ||); what real branch operators do is not covered',
     'BOUNDED: 2 branches, <= 2 results per branch and input, <= 2 inputs before and 1 after an exhaustion',
-    'SLICE of C01: concatenation, [ ], ?( ), let, if-then-else, closures (C10), format strings and build.cc wiring are NOT covered by this check (op_subx: C04; op_tr_closure: C10)',
+    'op_format::next: the stringer chain (the directives) is an abstract producer of 0..2 strings per input (props/c01/fmt_model*.h); stringer_op/stringer_lit themselves are not covered',
+    'SLICE of C01: concatenation, [ ], ?( ), let, if-then-else, closures (C10), the stringer operators and build.cc wiring are NOT covered by this check (op_subx: C04; op_tr_closure: C10)',
 ]
 EXPLANATION = 'Bounded check of ALT and || on the real operator code; see DESIGN.md section 4 C01.'
 
 
 def spec_files():
-    return [os.path.join(HERE, f) for f in ('alt_harness.c', 'or_harness.c', 'alt_model.h', 'alt_model2.h')]
+    return [os.path.join(HERE, f) for f in ('alt_harness.c', 'or_harness.c', 'fmt_harness.c', 'alt_model.h', 'alt_model2.h', 'fmt_model.h', 'fmt_model2.h')]
 
 
 def prepare(tier):
@@ -152,7 +181,9 @@ def prepare(tier):
     with open(os.path.join(OUT, 'alt_features.h'), 'w') as f:
         f.write('#define C01_HAVE_LAMBDA 1\n' if have else '/* no lambda in op_tine::next */\n')
     o = vlib.extract('or', 'libzwerg/op.cc', OR_CFG, OR_ROOTS, OUT)
-    return {'unit': 'libzwerg/op.cc (op_merge, op_tine, op_or)', 'functions': a.report['functions'] + o.report['functions']}
+    f = vlib.extract('fmt', 'libzwerg/op.cc', FMT_CFG, FMT_ROOTS, OUT)
+    o.report['functions'] += f.report['functions']
+    return {'unit': 'libzwerg/op.cc (op_merge, op_tine, op_or, op_format)', 'functions': a.report['functions'] + o.report['functions']}
 
 
 QUERIES = [('(5, 6, 7) let A := (1, 2); A', '<5|1> <5|2> <6|1> <6|2> <7|1> <7|2>'), ('(5, 6) "%( (1, 2) %)"', '<5|1> <5|2> <6|1> <6|2>'),
